@@ -6,6 +6,10 @@ pub mod eio_trace;
 pub mod watch;
 
 #[cfg(feature = "cb-std")]
+pub mod big_engine;
+#[cfg(feature = "cb-std")]
+pub mod huge_engine;
+#[cfg(feature = "cb-std")]
 pub mod case;
 #[cfg(feature = "cb-std")]
 pub mod cmp_engine;
@@ -37,5 +41,7 @@ pub mod props;
 pub mod runner;
 #[cfg(feature = "cb-std")]
 pub mod tracked;
+#[cfg(feature = "cb-std")]
+pub mod zfull_engine;
 #[cfg(feature = "cb-std")]
 pub mod zst_engine;
